@@ -183,6 +183,60 @@ def run(st, tier, seed):
                     judge(out, inp, what, redo=lambda: des_out)
                     if len(res.samples) < 2:
                         res.sample({"mutation": what, "file": rel, "accepted": True})
+    # directed: number of instance arguments vs number of template parameters.  The entry file of a generated program gets two
+    # (unused) parameters; it is compiled at top level with 2 / 1 / 3 arguments and, wrapped into a system, as an instance with
+    # (1, 2) / (1) / (1, 2, 3) / ().  Wherever the numbers differ the compiler must not produce output.
+    for name, b in bundles[:12 if tier == "quick" else 250]:
+        ek = [k for k in b.texts if os.path.splitext(k)[0] == b.entry]
+        if len(ek) != 1:
+            continue
+        ek = ek[0]
+        m = re.search(r"^(\s*declare\s+(component|system)\s+)([A-Za-z]\w*)(\s*:)(.*?)->(.*)$", b.texts[ek], flags=re.M)
+        if not m or not re.match(r"[A-Za-z]\w*\Z", b.entry):
+            continue
+        n_in = len([x for x in m.group(5).split("+") if x.strip()]); n_out = len([x for x in m.group(6).split("#")[0].split("+") if x.strip()])
+        ptext = b.texts[ek][:m.start(4)] + "(pA, pB)" + b.texts[ek][m.start(4):]
+        with core.scratch("pepper_c09a_") as d:
+            progen.write_bundle(b, d)
+            if compile_dir(d, b.entry, [], b.includes) is None:
+                continue
+            with open(os.path.join(d, ek), "w") as f:
+                f.write(ptext)
+            files = dict(b.texts, **{ek: ptext})
+            ok2 = compile_dir(d, b.entry, [1, 2], b.includes)
+            res.evaluations += 1
+            res.count("arity:top-level:2-of-2:" + ("accepted" if ok2 is not None else "rejected"))
+            if ok2 is None:
+                res.violations.append({"what": "a program that compiles stops compiling when its entry file declares two unused parameters and gets two arguments",
+                                       "input": {"files": files, "entry": b.entry, "args": [1, 2], "includes": b.includes}, "sig": "C09:arity:exact-rejected",
+                                       "cmd": "pepper-compiler %s 1 2" % b.entry})
+                continue
+            for args in ([1], [1, 2, 3], []):
+                out = compile_dir(d, b.entry, args, b.includes)
+                res.evaluations += 1
+                res.count("arity:top-level:%d-of-2:%s" % (len(args), "accepted" if out is not None else "rejected"))
+                if out is not None:
+                    res.violations.append({"what": "the entry file declares 2 parameters, %d arguments were given, and the compiler produced output" % len(args),
+                                           "input": {"files": files, "entry": b.entry, "args": args, "includes": b.includes}, "sig": "C09:arity:top-level",
+                                           "cmd": "pepper-compiler %s %s" % (b.entry, " ".join(map(str, args)))})
+            sigs = ["q%d" % i for i in range(n_in + n_out)]
+            def wrapper(argtext):
+                return "declare system Wrap: ->\nimport %s\ncomponent w = %s%s: %s -> %s\n" % (
+                    b.entry, b.entry, argtext, " + ".join(sigs[:n_in]), " + ".join(sigs[n_in:]))
+            def compile_wrapped(argtext):
+                with open(os.path.join(d, "Wrap.sys"), "w") as f:
+                    f.write(wrapper(argtext))
+                return compile_dir(d, "Wrap", [], b.includes)
+            if compile_wrapped("(1, 2)") is None:
+                res.count("arity:nested:wrapper-not-applicable"); continue
+            for argtext in ("(1)", "(1, 2, 3)", "", "()", "(1, 2, 3, 4)"):
+                out = compile_wrapped(argtext)
+                res.evaluations += 1
+                res.count("arity:nested:%s:%s" % (argtext or "none", "accepted" if out is not None else "rejected"))
+                if out is not None:
+                    res.violations.append({"what": "template %s declares 2 parameters, the instance passes %r, and the compiler produced output" % (b.entry, argtext),
+                                           "input": {"files": dict(files, **{"Wrap.sys": wrapper(argtext)}), "entry": "Wrap", "includes": b.includes},
+                                           "sig": "C09:arity:nested", "cmd": "pepper-compiler Wrap"})
     # directed: a user name of the reserved form _Anon<k> that clashes with the k-th anonymous region of the process
     # (defect F16: the strand silently referred to the user's sequence); must be rejected or well formed
     for k in range(6 if tier == "quick" else 40):
